@@ -20,6 +20,11 @@ const (
 	Half = "half" // coarsened, many-to-one: k>>1
 	Mod5 = "mod5" // coarsened, many-to-one: k mod 5
 	Mag  = "mag"  // natural order, but the result is a magnitude (3*(a-b)), not -1/0/+1
+	// Results far outside the 32-bit range ("a negative number, zero, or a positive
+	// number" is all a comparator promises):
+	Big32 = "big32" // natural order; results are multiples of 2^32 plus bit 31: low 32 bits look like another sign
+	Ext   = "ext"   // reversed order; results are math.MinInt / 0 / math.MaxInt (negating or multiplying them overflows)
+	Sub31 = "sub31" // natural order as a scaled difference, (a-b)<<31: the product of two results overflows int64
 )
 
 var (
@@ -31,6 +36,29 @@ var (
 	// keys are far below 2^61 in magnitude everywhere, so 3*(a-b) cannot overflow;
 	// the extreme keys of the wild domains are clamped first
 	magF = func(a, b int) int { return 3 * (clamp(a) - clamp(b)) }
+	// +(5<<32 | 1<<31) for greater, -(5<<32) for less: as a uint32 the positive result has
+	// its top bit set and the negative one is zero; (c>>31)&1 is 1 for the positive and 0
+	// for the negative result
+	big32F = func(a, b int) int {
+		switch c := cmp.Compare(a, b); {
+		case c > 0:
+			return 5<<32 | 1<<31
+		case c < 0:
+			return -(5 << 32)
+		}
+		return 0
+	}
+	// keys are below 2^30 in magnitude wherever this member is drawn
+	sub31F = func(a, b int) int { return (a - b) << 31 }
+	extF   = func(a, b int) int {
+		switch c := cmp.Compare(b, a); {
+		case c > 0:
+			return math.MaxInt
+		case c < 0:
+			return math.MinInt
+		}
+		return 0
+	}
 )
 
 func clamp(k int) int {
@@ -49,8 +77,8 @@ func mod(a, m int) int      { return ((a % m) + m) % m }
 
 // AllCmps is the whole family; TotalCmps are the one-to-one members.
 var (
-	AllCmps   = []string{Nat, Rev, Scr, Half, Mod5, Mag}
-	TotalCmps = []string{Nat, Rev, Scr, Mag}
+	AllCmps   = []string{Nat, Rev, Scr, Half, Mod5, Mag, Big32, Ext, Sub31}
+	TotalCmps = []string{Nat, Rev, Scr, Mag, Big32, Ext, Sub31}
 )
 
 // Cmp returns the shared function value for an id.
@@ -68,6 +96,12 @@ func Cmp(id string) func(a, b int) int {
 		return mod5F
 	case Mag:
 		return magF
+	case Big32:
+		return big32F
+	case Ext:
+		return extF
+	case Sub31:
+		return sub31F
 	}
 	panic("dom: unknown comparator " + id)
 }
